@@ -21,6 +21,7 @@ def units(tier):
     for n in ((1, 2, 3, 4, 5) if q else (1, 2, 3, 4, 5, 6)):
         us.append(dict(h="k_replace_map", n=n, cost=0))
     us += PG.program_units(tier, "tok_prog", ics=(True,), rotate=True)
+    us += rule_units(tier)
     return us
 
 
@@ -95,3 +96,63 @@ def k_replace_map(ctx):
     ctx.check(len(_squeeze(back)) == len(_squeeze(s)), "string_replace_map inverse changes the number of non-blank characters")
     if len(_squeeze(back)) == len(_squeeze(s)):
         ctx.check(_squeeze(back) == _squeeze(s), "string_replace_map followed by its inverse does not give the line back")
+
+
+def rule_units(tier):
+    from sse import harvest
+    us = []
+    k = 0
+    for name, text in harvest.cls_pairs():
+        name = str(name)
+        text = str(text)
+        if name.startswith("Cpp_") or name in SKIP_RULES:
+            continue
+        pos = [i for i, ch in enumerate(text) if ch.isalnum()]
+        if not pos or (" " not in text and text.lower().startswith("type") and len(text) > 4):
+            continue      # 'typea': blank-free fixed-form spelling
+        step = max(1, len(pos) // 2) if tier == "quick" else max(1, len(pos) // 6)
+        for i in pos[::step][: (2 if tier == "quick" else 6)]:
+            k += 1
+            us.append(dict(h="tok_rule", cls=name, text=text, at=i, std="f2008" if k % 2 else "f2003", cost=1))
+    return us
+
+
+# rules whose printed form legitimately differs in tokens (documented canonicalisations beyond the
+# normaliser: FORMAT commas, implied kind/len keywords in selectors, 'in out', 'go to' etc. are
+# handled by the normaliser; these are not)
+SKIP_RULES = ("Format_Item", "Format_Stmt", "Format_Specification", "Format_Item_List",   # documented: commas in FORMAT lists
+              "Char_Literal_Constant",   # leaf; blanks around the kind '_' change the oracle's tokenisation, not the content
+              "Length_Selector")         # test inputs carry a trailing ',' of their context
+
+
+def tok_rule(ctx):
+    """tokens(str(Cls(s))) == tokens(s) for a test input of the repository with one letter/digit
+    symbolic"""
+    p = ctx.p
+    C.reset()
+    C.get_parser(p["std"])
+    from fparser.two import Fortran2003, Fortran2008
+    cls = None
+    if p["std"] == "f2008":
+        cls = getattr(Fortran2008, api.text(p["cls"]), None)
+    cls = cls or getattr(Fortran2003, api.text(p["cls"]), None)
+    if cls is None or not isinstance(cls, type):
+        ctx.check(True, "class not available")
+        return
+    text = p["text"]
+    i = p["at"]
+    ch = text[i]
+    dom = "digit" if ch.isdigit() else ("upper" if ch.isupper() else "lower")
+    s = text[:i] + ctx.chars("c", 1, dom) + text[i + 1:]
+    ctx.observe("s", s)
+    r = C.outcome(lambda: cls(s))
+    if r[0] != "ok" or r[1] is None:
+        ctx.check(True, "no match")
+        return
+    s1 = str(r[1])
+    ctx.observe("s1", s1)
+    a = LX.normalise(LX.tokens(s))
+    b = LX.normalise(LX.tokens(s1))
+    ctx.check(len(a) == len(b), "rule %s: printed text has %s tokens than the input" % (api.text(p["cls"]), "more" if len(b) > len(a) else "fewer"))
+    if len(a) == len(b):
+        ctx.check(LX.same_tokens(a, b, ()), "rule %s: printed tokens differ from the input's" % api.text(p["cls"]))
